@@ -271,6 +271,15 @@ def profile(i):
     return (1, 2), 110, False, True
 
 
+def corpus_api():
+    """fixed histories run before the generated ones (so that what they show does not depend on the seed)"""
+    a = "61" * 9000
+    move_then_large_read = [
+        "file 1 F1.cgns BE w", "create 1 0 1 41", "create 1 0 2 42", "dims 1 1 C1 9000", "wall 1 1 " + a,
+        "create 1 0 3 43", "move 1 0 3 2", "rall 1 1", "names 1 2 1 2", "reopen 1 r", "rall 1 1", "names 1 2 1 2", "closef 1"]
+    return [((1,), move_then_large_read)]
+
+
 def run_api(exe, hist, work, tag, timeout=240):
     s = nodedb.instantiate(hist, "adf", work, tag)
     out, outcome, stack = vlib.run_impl(exe, "\n".join(s) + "\n", args=["api"], timeout=timeout, want_stack=True)
@@ -295,6 +304,21 @@ def classify_x(line):
     return None
 
 
+MUTATORS = ("create", "link", "delete", "rename", "move", "label", "dims", "wall", "wblock", "wsel")
+
+
+def last_mutator(hist, k):
+    """the last mutating script line on the file that line k reads: the call that left the write buffer as it is"""
+    f = hist[k].split(" ")[1] if k < len(hist) else None
+    for l in reversed(hist[:k]):
+        t = l.split(" ")
+        if t[0] in MUTATORS and t[1] == f:
+            return t[0]
+        if t[0] in ("reopen", "file") and t[1] == f:
+            return t[0]
+    return "?"
+
+
 def classify_viol(v):
     if v.startswith("VIOL discipline stack mode=4") and " type=1 len=186" in v and re.search(r"mode=4 \d+ 0 0 type=1", v):
         return MODDATE_KEY
@@ -304,6 +328,8 @@ def classify_viol(v):
         return "adf-cache-hole2-reached-through-api"
     if v.startswith("VIOL discipline"):
         return "adf-stack-discipline-broken"
+    if v.startswith("VIOL leftover"):
+        return MODDATE_KEY if " block=0 offset=0 type=1:" in v else "adf-stack-entry-left-stale"
     if v.startswith("VIOL range"):
         return "adf-arguments-outside-model-range"
     return "c02b-other"
@@ -402,6 +428,8 @@ def run_extra(ck, pid="C02b"):
         astat = {"histories": 0, "trace_events": 0, "files_open_together": {}, "api_lines": 0}
         asum = {}
         jobs = []
+        for j, (files, hist) in enumerate(corpus_api()):
+            jobs.append((1000 + j, files, hist, pool.submit(run_api, exe, hist, work, "c%d" % j)))
         for i in range(n_api):
             files, nops, big, wide = profile(i)
             if thorough and i % 10 == 9:
@@ -417,7 +445,8 @@ def run_extra(ck, pid="C02b"):
                 asum[k] = max(asum.get(k, 0), v) if k in ("max_files_open", "live_stack") else asum.get(k, 0) + v
             ck.cov["traces_validated_against_impl"] += 1
             nontriv = a["summary"].get("flushes", 0) > 10 and a["summary"].get("rd_hits", 0) > 50 and a["summary"].get("stack_hits", 0) > 50 \
-                and a["summary"].get("multiblock_writes", 0) > 0
+                and a["summary"].get("multiblock_writes", 0) > 0 if hook else \
+                (any(l.startswith("delete") for l in hist) and any(l.startswith("wall") and len(l) > 8300 for l in hist))
             ck.case(hashlib.sha1("\n".join(hist).encode()).hexdigest() if nontriv else None,
                     sample={"api_files": len(files), "ops": [nodedb.short(x, 70) for x in hist[:6]] + ["..."], "trace_events": a["tcount"]} if i < 3 else None)
             if outcome != "ok":
@@ -431,10 +460,12 @@ def run_extra(ck, pid="C02b"):
                                               oracle="bytes returned vs pread of the file overlaid with the pending write block"))
             for idx, v, tline in a["viols"]:
                 key = classify_viol(v)
+                if key.startswith("adf-cache-hole"):
+                    key += ":after-" + last_mutator(hist, api_line_of(out, idx))
                 findings.setdefault(key, dict(pack(hist[:api_line_of(out, idx) + 1]), mode="api", monitor=v[:300], trace_event=tline[:200]))
             if a["diffs"] or not model:
                 diffs.append(("api", s, [d[1][:300] + " @ " + d[2][:120] for d in a["diffs"][:3]]))
-        ex["api"] = dict(astat, model_counters=asum,
+        ex["api"] = dict(astat, model_counters=asum if hook else "(no hook: no trace)",
                          note="model_counters are the paths the MODEL took; they equal the hook's own counters (compared at the end of every trace)")
     pool.shutdown()
     ck.extra.setdefault("input_distribution_c02b", {"unit": ex.get("unit"), "api": ex.get("api")})
